@@ -1292,3 +1292,296 @@ Qed.
 Example zip2_partial_example :
   same_len (VList [VInt 1; VInt 2]) (VTuple [VStr 1; VNone]) = true.
 Proof. reflexivity. Qed.
+
+(* ------------------------------------------------------------------------------------------- *)
+(* fixes.replace_negated_numeric_comparison *)
+
+(* __eq__ of every opaque object answers with a bool *)
+Definition bool_eq (w : world) : Prop := forall o v, exists b, eq_or w o v = VBool b.
+
+Lemma py_eq_bool : forall w a b, bool_eq w -> exists r, py_eq w a b = VBool r.
+Proof.
+  intros w a b H. unfold py_eq. destruct a; destruct b; try (eexists; reflexivity); apply H.
+Qed.
+
+Lemma lt_ge : forall a b, option_map VBool (py_le b a) =
+                          option_map (fun res => VBool (negb (truthy res))) (option_map VBool (py_lt a b)).
+Proof.
+  intros a b. unfold py_le, py_lt.
+  destruct (Z.leb_spec 0 (cls a)), (Z.leb_spec 0 (cls b)), (Z.eqb_spec (cls a) (cls b)), (Z.eqb_spec (cls b) (cls a));
+    cbn; try reflexivity; try lia.
+  f_equal. f_equal. rewrite Z.leb_antisym. reflexivity.
+Qed.
+
+Lemma le_gt : forall a b, option_map VBool (py_lt b a) =
+                          option_map (fun res => VBool (negb (truthy res))) (option_map VBool (py_le a b)).
+Proof.
+  intros a b. unfold py_le, py_lt.
+  destruct (Z.leb_spec 0 (cls a)), (Z.leb_spec 0 (cls b)), (Z.eqb_spec (cls a) (cls b)), (Z.eqb_spec (cls b) (cls a));
+    cbn; try reflexivity; try lia.
+  f_equal. f_equal. rewrite Z.ltb_antisym. reflexivity.
+Qed.
+
+Lemma cmp_negate : forall w o a b, bool_eq w ->
+  cmp_sem w (negate_op o) a b = option_map (fun res => VBool (negb (truthy res))) (cmp_sem w o a b).
+Proof.
+  intros w o a b H. destruct o; cbn [negate_op cmp_sem].
+  - reflexivity.
+  - cbn. destruct (py_eq_bool w a b H) as [r ->]. cbn. rewrite negb_involutive. reflexivity.
+  - apply lt_ge.
+  - apply le_gt.
+  - apply (lt_ge b a).
+  - apply (le_gt b a).
+  - destruct (is_same a b); reflexivity.
+  - destruct (is_same a b); cbn; [rewrite negb_involutive|]; reflexivity.
+  - destruct (py_in a b); reflexivity.
+  - destruct (py_in a b); cbn; [rewrite negb_involutive|]; reflexivity.
+Qed.
+
+(* `not a < 3` -> `a >= 3`, `not a == b` -> `a != b`, ... : same value (a bool), same calls, same errors *)
+Theorem negated_sound : forall w e e', bool_eq w ->
+  rw_negated e = Some e' -> forall en tr, eval w e' en tr = eval w e en tr.
+Proof.
+  intros w e e' Hw Hr en tr. destruct e; try discriminate. destruct e; try discriminate.
+  destruct rest as [|it tl]; [discriminate|]. destruct it; try discriminate. destruct tl; [|discriminate].
+  cbn [rw_negated] in Hr. destruct (set_like_op o || numeric_const e || numeric_const it); [|discriminate].
+  injection Hr as <-. cbn [eval]. destruct (eval w e en tr) as [[lv tr0]|]; [|reflexivity].
+  cbn [eval_chain]. destruct (eval w it en tr0) as [[rv tr1]|]; [|reflexivity].
+  rewrite cmp_negate by assumption. destruct (cmp_sem w o lv rv); reflexivity.
+Qed.
+
+Example negated_example :
+  rw_negated (ENot (ECmp (EName 1) [EOp Lt (EConst (AInt 3))])) = Some (ECmp (EName 1) [EOp GtE (EConst (AInt 3))]).
+Proof. reflexivity. Qed.
+
+(* ------------------------------------------------------------------------------------------- *)
+(* comprehension loops: the non-dict kinds differ only in how the collected items are wrapped *)
+
+Definition nondict (k : ckind) : bool := match k with CDict => false | _ => true end.
+
+Lemma loop_nondict : forall ev k elt dval t ifs en, nondict k = true ->
+  forall xs acc dacc tr,
+    comp_loop ev k elt dval t ifs en xs acc dacc tr =
+    match comp_loop ev CList elt dval t ifs en xs acc dacc tr with
+    | Some (VList a, tr') => match finish_comp k a dacc with Some r => Some (r, tr') | None => None end
+    | _ => None
+    end.
+Proof.
+  intros ev k elt dval t ifs en Hk. induction xs as [|x xs IH]; intros acc dacc tr.
+  - cbn. reflexivity.
+  - cbn [comp_loop]. destruct (bind t x en) as [en'|]; [|reflexivity].
+    destruct (eval_conds ev en' ifs tr) as [[[] tr1]|]; [|apply IH|reflexivity].
+    destruct (ev elt en' tr1) as [[v tr2]|]; [|reflexivity].
+    destruct k; try discriminate; apply IH.
+Qed.
+
+Lemma loop_list_shape : forall ev elt dval t ifs en xs acc dacc tr r tr',
+  comp_loop ev CList elt dval t ifs en xs acc dacc tr = Some (r, tr') -> exists a, r = VList a.
+Proof.
+  intros ev elt dval t ifs en. induction xs as [|x xs IH]; intros acc dacc tr r tr' H.
+  - cbn in H. injection H as <- _. eauto.
+  - cbn [comp_loop] in H. destruct (bind t x en) as [en'|]; [|discriminate].
+    destruct (eval_conds ev en' ifs tr) as [[[] tr1]|]; [|eapply IH; eassumption|discriminate].
+    destruct (ev elt en' tr1) as [[v tr2]|]; [|discriminate]. eapply IH; eassumption.
+Qed.
+
+(* value of a non-dict comprehension in terms of the list comprehension with the same parts *)
+Lemma eval_comp_nondict : forall w k elt dval t it ifs en tr, nondict k = true ->
+  eval w (EComp k elt dval t it ifs) en tr =
+  match eval w (EComp CList elt dval t it ifs) en tr with
+  | Some (VList a, tr') => match finish_comp k a [] with Some r => Some (r, tr') | None => None end
+  | _ => None
+  end.
+Proof.
+  intros w k elt dval t it ifs en tr Hk. rewrite !eval_EComp.
+  destruct (eval w it en tr) as [[itv tr0]|]; [|reflexivity].
+  destruct (items_of itv) as [xs|]; [|reflexivity].
+  rewrite (loop_nondict _ k) by assumption.
+  destruct (comp_loop (eval w) CList elt dval t ifs en xs [] [] tr0) as [[r tr']|] eqn:E; [|reflexivity].
+  destruct (loop_list_shape _ _ _ _ _ _ _ _ _ _ _ _ E) as [a ->].
+  assert (Hd : forall xs acc dacc tr0 a tr', comp_loop (eval w) CList elt dval t ifs en xs acc dacc tr0 = Some (VList a, tr') -> True)
+    by (intros; exact I).
+  reflexivity.
+Qed.
+
+Lemma eval_bi1 : forall w b a en tr, plain a = true ->
+  eval w (EBi b [a]) en tr =
+  match eval w a en tr with
+  | Some (v, tr1) => match bapply b [v] [] with Some r => Some (r, tr1) | None => None end
+  | None => None
+  end.
+Proof.
+  intros. rewrite eval_EBi, eval_args_plain_cons by assumption.
+  destruct (eval w a en tr) as [[v tr1]|]; reflexivity.
+Qed.
+
+Lemma loop_dict_shape : forall ev elt dval t ifs en xs acc dacc tr r tr',
+  comp_loop ev CDict elt dval t ifs en xs acc dacc tr = Some (r, tr') -> exists d, r = VDict d.
+Proof.
+  intros ev elt dval t ifs en. induction xs as [|x xs IH]; intros acc dacc tr r tr' H.
+  - cbn in H. injection H as <- _. eauto.
+  - cbn [comp_loop] in H. destruct (bind t x en) as [en'|]; [|discriminate].
+    destruct (eval_conds ev en' ifs tr) as [[[] tr1]|]; [|eapply IH; eassumption|discriminate].
+    destruct (ev elt en' tr1) as [[v tr2]|]; [|discriminate].
+    destruct (ev dval en' tr2) as [[dv tr3]|]; [|discriminate].
+    destruct (hashable v); [eapply IH; eassumption | discriminate].
+Qed.
+
+(* ------------------------------------------------------------------------------------------- *)
+(* fixes.replace_redundant_starred: a display whose only element is a starred comprehension becomes
+   list(comp) / tuple(comp) / set(comp) *)
+
+Theorem starred_sound : forall w e e',
+  rw_starred e = Some e' -> forall en tr, eval w e' en tr = eval w e en tr.
+Proof.
+  intros w e e' Hr en tr. destruct e; try discriminate. destruct elts as [|c [|? ?]]; try discriminate;
+    cbn [rw_starred] in Hr; destruct c; try discriminate.
+  - destruct c; try discriminate. destruct k0; try discriminate; injection Hr as <-;
+      rewrite eval_bi1 by reflexivity; rewrite eval_ESeq; cbn [eval_elts];
+      match goal with |- context [eval w ?c en tr] => destruct (eval w c en tr) as [[v tr1]|]; [|reflexivity] end;
+      destruct k; cbn [bapply]; destruct (items_of v) as [vs|]; try reflexivity; cbn [option_map];
+      rewrite app_nil_r; try reflexivity; destruct (mkset vs); reflexivity.
+  - destruct c; discriminate.
+Qed.
+
+(* ------------------------------------------------------------------------------------------- *)
+(* fixes.remove_redundant_comprehension_casts (repaired) *)
+
+Lemma eval_comp_list_shape : forall w elt dval t it ifs en tr r tr',
+  eval w (EComp CList elt dval t it ifs) en tr = Some (r, tr') -> exists a, r = VList a.
+Proof.
+  intros w elt dval t it ifs en tr r tr' H. rewrite eval_EComp in H.
+  destruct (eval w it en tr) as [[itv tr0]|]; [|discriminate]. destruct (items_of itv) as [xs|]; [|discriminate].
+  eapply loop_list_shape; eassumption.
+Qed.
+
+Ltac list_comp_cases w c1 c2 t c3 ifs en tr :=
+  let r := fresh "r" in let tr1 := fresh "tr1" in let E := fresh "E" in let a := fresh "a" in
+  destruct (eval w (EComp CList c1 c2 t c3 ifs) en tr) as [[r tr1]|] eqn:E;
+  [destruct (eval_comp_list_shape _ _ _ _ _ _ _ _ _ _ E) as [a ->] | reflexivity].
+
+Theorem comp_casts_sound : forall w e e',
+  rw_comp_casts e = Some e' ->
+  (match e with EBi BSet [EComp CDict _ _ _ _ _] => false | _ => true end) = true ->
+  forall en tr, eval w e' en tr = eval w e en tr.
+Proof.
+  intros w e e' Hr Hg en tr. destruct e; try discriminate. destruct args as [|c [|? ?]]; try discriminate;
+    destruct c; try discriminate. cbn [rw_comp_casts] in Hr.
+  rewrite eval_bi1 by reflexivity.
+  destruct b, k; try discriminate; injection Hr as <-.
+  - (* list of a list comprehension *)
+    list_comp_cases w c1 c2 t c3 ifs en tr. reflexivity.
+  - (* list of a generator *) rewrite (eval_comp_nondict w CGen) by reflexivity.
+    list_comp_cases w c1 c2 t c3 ifs en tr. reflexivity.
+  - (* set of a list comprehension *) rewrite (eval_comp_nondict w CSet) by reflexivity.
+    list_comp_cases w c1 c2 t c3 ifs en tr. cbn [bapply items_of finish_comp]. destruct (mkset a); reflexivity.
+  - (* set of a set comprehension *) rewrite (eval_comp_nondict w CSet) by reflexivity.
+    list_comp_cases w c1 c2 t c3 ifs en tr.
+    cbn [finish_comp]. destruct (mkset a) as [s|] eqn:Es; [|reflexivity].
+    assert (exists s', s = VSet s') as [s' ->].
+    { unfold mkset in Es. destruct (forallb hashable a); [|discriminate]. injection Es as <-. eauto. }
+    cbn [bapply items_of]. rewrite (mkset_idem _ _ Es). reflexivity.
+  - (* set of a generator *) rewrite (eval_comp_nondict w CSet), (eval_comp_nondict w CGen) by reflexivity.
+    list_comp_cases w c1 c2 t c3 ifs en tr. cbn [bapply items_of finish_comp]. destruct (mkset a); reflexivity.
+  - (* dict of a dict comprehension *) rewrite eval_EComp.
+    destruct (eval w c3 en tr) as [[itv tr0]|]; [|reflexivity]. destruct (items_of itv) as [xs|]; [|reflexivity].
+    destruct (comp_loop (eval w) CDict c1 c2 t ifs en xs [] [] tr0) as [[r tr1]|] eqn:E; [|reflexivity].
+    destruct (loop_dict_shape _ _ _ _ _ _ _ _ _ _ _ _ E) as [d ->]. reflexivity.
+  - (* iter of a generator *) rewrite (eval_comp_nondict w CGen) by reflexivity.
+    list_comp_cases w c1 c2 t c3 ifs en tr. reflexivity.
+Qed.
+
+Example comp_casts_example :
+  rw_comp_casts (EBi BSet [EComp CGen (ECall 2 [EName 2]) (EConst ANone) (TName 2) (EName 3) [EName 2]])
+  = Some (EComp CSet (ECall 2 [EName 2]) (EConst ANone) (TName 2) (EName 3) [EName 2]).
+Proof. reflexivity. Qed.
+
+(* ------------------------------------------------------------------------------------------- *)
+(* fixes.replace_functions_with_literals *)
+
+Lemma mkset_shape : forall l s, mkset l = Some s -> exists s', s = VSet s'.
+Proof. intros l s H. unfold mkset in H. destruct (forallb hashable l); [|discriminate]. injection H as <-. eauto. Qed.
+
+Theorem literals_sound : forall w e e',
+  rw_literals e = Some e' -> forall en tr, eval w e' en tr = eval w e en tr.
+Proof.
+  intros w e e' Hr en tr. destruct e; try discriminate.
+  destruct args as [|c [|? ?]].
+  - destruct b; try discriminate; injection Hr as <-; reflexivity.
+  - assert (Hp : is_display c = true \/ (exists k a b t i f, c = EComp k a b t i f) -> plain c = true).
+    { intros [H | (k & a & b' & t & i & f & ->)]; [destruct c; try discriminate|]; reflexivity. }
+    destruct b, c; try discriminate; cbn [rw_literals] in Hr.
+    + (* list(display) *) destruct k; try discriminate; injection Hr as <-; rewrite eval_bi1 by reflexivity;
+        rewrite !eval_ESeq; destruct (eval_elts (eval w) en elts tr) as [[vs tr1]|]; reflexivity.
+    + (* list(comprehension) *) destruct k; try discriminate. injection Hr as <-. rewrite eval_bi1 by reflexivity.
+      list_comp_cases w c1 c2 t c3 ifs en tr. reflexivity.
+    + (* tuple(display) *) destruct k; try discriminate; injection Hr as <-; rewrite eval_bi1 by reflexivity;
+        rewrite !eval_ESeq; destruct (eval_elts (eval w) en elts tr) as [[vs tr1]|]; reflexivity.
+    + (* set(display) *) destruct k; try discriminate; injection Hr as <-; rewrite eval_bi1 by reflexivity;
+        rewrite !eval_ESeq; destruct (eval_elts (eval w) en elts tr) as [[vs tr1]|]; try reflexivity;
+        cbn [bapply items_of]; destruct (mkset vs) as [s|] eqn:Es; try reflexivity.
+      destruct (mkset_shape _ _ Es) as [s' ->]. cbn [bapply items_of]. rewrite (mkset_idem _ _ Es). reflexivity.
+    + (* set(comprehension) *) destruct k; try discriminate; injection Hr as <-; rewrite eval_bi1 by reflexivity.
+      * rewrite (eval_comp_nondict w CSet) by reflexivity. list_comp_cases w c1 c2 t c3 ifs en tr.
+        cbn [finish_comp]. destruct (mkset a) as [s|] eqn:Es; [|reflexivity].
+        destruct (mkset_shape _ _ Es) as [s' ->]. cbn [bapply items_of]. rewrite (mkset_idem _ _ Es). reflexivity.
+      * rewrite (eval_comp_nondict w CSet), (eval_comp_nondict w CGen) by reflexivity.
+        list_comp_cases w c1 c2 t c3 ifs en tr. cbn [bapply items_of finish_comp]. destruct (mkset a); reflexivity.
+    + (* iter(generator) *) destruct k; try discriminate. injection Hr as <-. rewrite eval_bi1 by reflexivity.
+      rewrite (eval_comp_nondict w CGen) by reflexivity. list_comp_cases w c1 c2 t c3 ifs en tr. reflexivity.
+  - destruct b; discriminate.
+Qed.
+
+Example literals_example :
+  rw_literals (EBi BSet [ESeq KList [EConst (AInt 1); ECall 0 []]]) = Some (ESeq KSet [EConst (AInt 1); ECall 0 []]).
+Proof. reflexivity. Qed.
+
+(* ------------------------------------------------------------------------------------------- *)
+(* fixes.remove_redundant_chain_casts (repaired) *)
+
+Lemma chain_stars : forall w en args tr vals tr' ls,
+  forallb plain args = true ->
+  eval_args (eval w) en args tr = Some (vals, tr') ->
+  all_items (fst (split_kws vals)) = Some ls ->
+  snd (split_kws vals) = [] /\ eval_elts (eval w) en (map EStar args) tr = Some (concat ls, tr').
+Proof.
+  intros w en. induction args as [|a args IH]; intros tr vals tr' ls Hp He Hi.
+  - injection He as <- <-. cbn in Hi. injection Hi as <-. split; reflexivity.
+  - cbn in Hp. apply andb_true_iff in Hp as [Hpa Hp]. rewrite eval_args_plain_cons in He by assumption.
+    cbn [map eval_elts]. destruct (eval w a en tr) as [[v tr1]|]; [|discriminate].
+    destruct (eval_args (eval w) en args tr1) as [[rest tr2]|] eqn:Er; [|discriminate]. injection He as <- <-.
+    cbn [split_kws] in *. destruct (split_kws rest) as [pos kwl] eqn:Es. cbn [fst snd all_items] in *.
+    destruct (items_of v) as [l|]; [|discriminate]. destruct (all_items pos) as [ls'|] eqn:Ea; [|discriminate].
+    injection Hi as <-. destruct (IH tr1 rest tr2 ls' Hp Er) as [Hk Hs]; [rewrite Es; exact Ea|].
+    rewrite Es in Hk. cbn in Hk. rewrite Hs. split; [assumption | reflexivity].
+Qed.
+
+Theorem chain_casts_sound : forall w e e',
+  rw_chain_casts e = Some e' ->
+  forall en tr r, eval w e en tr = Some r -> eval w e' en tr = Some r.
+Proof.
+  intros w e e' Hr en tr r Hev. destruct e; try discriminate. destruct args as [|c tl]; [discriminate|].
+  destruct c; try discriminate. destruct b0; try discriminate. destruct tl; [|discriminate].
+  cbn [rw_chain_casts] in Hr.
+  destruct (forallb plain args) eqn:Hp; [|discriminate].
+  rewrite eval_bi1 in Hev by reflexivity. rewrite eval_EBi in Hev.
+  destruct (eval_args (eval w) en args tr) as [[vals tr1]|] eqn:Ea; [|discriminate].
+  destruct (snd (split_kws vals)) eqn:Ek;
+    [|destruct (fst (split_kws vals)); cbn in Hev; discriminate].
+  assert (Hch : bapply BChain (fst (split_kws vals)) [] =
+                option_map (fun ls => VIter (concat ls)) (all_items (fst (split_kws vals))))
+    by (destruct (fst (split_kws vals)); reflexivity).
+  rewrite Hch in Hev. destruct (all_items (fst (split_kws vals))) as [ls|] eqn:Ei; [|discriminate].
+  cbn [option_map] in Hev. destruct (chain_stars _ _ _ _ _ _ _ Hp Ea Ei) as [_ Hs].
+  destruct b, args as [|a0 args']; try discriminate; injection Hr as <-;
+    try change (EStar a0 :: map EStar args') with (map EStar (a0 :: args')).
+  - (* list(chain()) *) cbn in *. injection Ea as <- <-. cbn in *. injection Ei as <-. cbn in Hev. exact Hev.
+  - rewrite eval_ESeq, Hs. cbn [bapply items_of option_map] in Hev. exact Hev.
+  - cbn in *. injection Ea as <- <-. cbn in *. injection Ei as <-. cbn in Hev. exact Hev.
+  - rewrite eval_ESeq, Hs. cbn [bapply items_of option_map] in Hev. exact Hev.
+  - (* set(chain()) *) cbn in *. injection Ea as <- <-. cbn in *. injection Ei as <-. cbn in Hev. exact Hev.
+  - rewrite eval_ESeq, Hs. cbn [bapply items_of] in Hev. destruct (mkset (concat ls)); [exact Hev | discriminate].
+  - (* iter(chain()) *) cbn in *. injection Ea as <- <-. cbn in *. injection Ei as <-. cbn in Hev. exact Hev.
+  - (* iter(chain(a, ..)) -> chain(a, ..) *)
+    rewrite eval_EBi, Ea, Ek, Hch. cbn [option_map bapply items_of] in *. exact Hev.
+Qed.
